@@ -3,7 +3,6 @@ package main
 import (
 	"fmt"
 	"go/types"
-	"strings"
 
 	"golang.org/x/tools/go/ssa"
 )
@@ -148,11 +147,26 @@ func findInstrs(fn *ssa.Function, pr instrPred) []ssa.Instruction {
 	return out
 }
 
-// ruleLocked (R-LOCKED): every load/store of field f happens with the mutex
-// field mu of the same object in the must-held set, or on an object freshly
-// allocated in the same function (constructor), or in a function listed in
-// except (one symbol, one reason). Returns the number of accesses examined.
-func ruleLocked(p *Prog, r *Report, li *LockInfo, key string, f *types.Var, mu string, except map[string]string) int {
+// lockRule describes one guarded field for R-LOCKED.
+type lockRule struct {
+	Key   string
+	Field *types.Var
+	Mu    string // name of the mutex field in the same object
+	// Need overrides the required lock path for an access (default: <base>.<Mu>).
+	Need func(a FieldAccess) string
+	// Alt: function (top-level name) -> alternative lock path that must be held
+	// there instead, with the reason (one symbol, one reason).
+	Alt map[string][2]string
+	// Exempt: function (top-level name) -> reason why no lock is needed there.
+	Exempt map[string]string
+}
+
+// ruleLocked (R-LOCKED): every load/store of the field happens with the
+// required mutex in the must-held set, or on an object freshly allocated in
+// the same function (constructor), or under the table-listed alternative.
+// Returns the number of accesses examined.
+func ruleLocked(p *Prog, r *Report, li *LockInfo, lr lockRule) int {
+	key, f := lr.Key, lr.Field
 	if f == nil {
 		r.Undecided(key, "R-LOCKED", "guarded field not found")
 		return 0
@@ -166,7 +180,10 @@ func ruleLocked(p *Prog, r *Report, li *LockInfo, key string, f *types.Var, mu s
 		if _, fresh := a.Base.(*ssa.Alloc); fresh {
 			continue
 		}
-		need := path(a.Base) + "." + mu
+		need := lockKeyFor(a.Base, lr.Mu)
+		if lr.Need != nil {
+			need = lr.Need(a)
+		}
 		held := li.At(a.Instr)
 		if held[need] {
 			continue
@@ -175,30 +192,40 @@ func ruleLocked(p *Prog, r *Report, li *LockInfo, key string, f *types.Var, mu s
 		for top.Parent() != nil {
 			top = top.Parent()
 		}
-		if why, ok := except[funcName(top)]; ok {
-			used[funcName(top)] = true
-			_ = why
+		tn := funcName(top)
+		if alt, ok := lr.Alt[tn]; ok {
+			used[tn] = true
+			if held[alt[0]] {
+				continue
+			}
+			need = need + " or " + alt[0]
+		} else if _, ok := lr.Exempt[tn]; ok {
+			used[tn] = true
 			continue
 		}
 		bad++
 		r.Fail(fmt.Sprintf("%s.access@%s", key, funcName(a.Fn)), "R-LOCKED", p.InstrPos(a.Instr),
 			fmt.Sprintf("field %s is accessed in %s without %s held (must-held set here: %s)", f.Name(), funcName(a.Fn), need, held))
 	}
-	for fn := range except {
+	for fn := range lr.Alt {
 		if !used[fn] {
-			r.Fail(key+".stale-exception."+fn, "R-LOCKED", "-", "exception row for "+fn+" no longer matches any unguarded access (stale table row)")
+			r.Fail(key+".stale-exception."+fn, "R-LOCKED", "-", "table row for "+fn+" no longer matches any access (stale table row)")
+		}
+	}
+	for fn := range lr.Exempt {
+		if !used[fn] {
+			r.Fail(key+".stale-exception."+fn, "R-LOCKED", "-", "table row for "+fn+" no longer matches any access (stale table row)")
 		}
 	}
 	if bad == 0 {
-		r.OK(key, "R-LOCKED", "-", fmt.Sprintf("all %d access(es) to %s hold <object>.%s (or are constructor initialisations)", len(acc), f.Name(), mu))
+		r.OK(key, "R-LOCKED", "-", fmt.Sprintf("all %d access(es) to %s hold the required lock (or are constructor initialisations / table rows)", len(acc), f.Name()))
 	}
 	return len(acc)
 }
 
 // ruleNotHeldAtCalls (R-NOLOCKCALL / R-LOCKORDER): at every instruction in the
-// repository satisfying pr, no lock whose path ends in one of the given
-// suffixes may be held (may-analysis).
-func ruleNotHeldAtCalls(p *Prog, r *Report, may *LockInfo, key, rule string, pr instrPred, suffixes []string, what string) int {
+// repository satisfying pr, no lock satisfying isBad may be held (may-analysis).
+func ruleNotHeldAtCalls(p *Prog, r *Report, may *LockInfo, key, rule string, pr instrPred, isBad func(lockKey string) bool, what string) int {
 	n, bad := 0, 0
 	for _, fn := range may.fns {
 		eachInstr(fn, func(in ssa.Instruction) {
@@ -212,18 +239,16 @@ func ruleNotHeldAtCalls(p *Prog, r *Report, may *LockInfo, key, rule string, pr 
 			r.Sites++
 			held := may.At(in)
 			for k := range held {
-				for _, suf := range suffixes {
-					if k == suf || strings.HasSuffix(k, "."+suf) {
-						bad++
-						r.Fail(fmt.Sprintf("%s@%s", key, funcName(fn)), rule, p.InstrPos(in),
-							fmt.Sprintf("%s in %s may execute while %s is held (may-held set: %s)", what, funcName(fn), k, held))
-					}
+				if isBad(k) {
+					bad++
+					r.Fail(fmt.Sprintf("%s@%s", key, funcName(fn)), rule, p.InstrPos(in),
+						fmt.Sprintf("%s in %s may execute while %s is held (may-held set: %s)", what, funcName(fn), k, held))
 				}
 			}
 		})
 	}
 	if bad == 0 {
-		r.OK(key, rule, "-", fmt.Sprintf("%d site(s) of %s, none with %v possibly held", n, what, suffixes))
+		r.OK(key, rule, "-", fmt.Sprintf("%d site(s) of %s, none with a forbidden lock possibly held", n, what))
 	}
 	return n
 }
